@@ -443,6 +443,17 @@ class Model:
             raise AnalysisError(f"anchor function {qual} not found")
         return self.funcs[qual]
 
+    def nfn(self, qual: str, subst: bool = False, guards: bool = False, keep=()) -> Fn:
+        """the function with its body in normal form (sa/normal.py): helpers inlined, table loops unrolled, ..."""
+        import dataclasses
+        from . import normal
+        key = (qual, subst, guards, tuple(keep))
+        cache = self.__dict__.setdefault("_nfn_cache", {})
+        if key not in cache:
+            f = self.fn(qual)
+            cache[key] = dataclasses.replace(f, node=normal.normalise(self, f, subst=subst, guards=guards, keep=keep))
+        return cache[key]
+
     def cls(self, qual: str) -> Cls:
         if qual not in self.classes:
             raise AnalysisError(f"anchor class {qual} not found")
@@ -831,6 +842,7 @@ class Model:
 
     def _check_reflection_inventory(self):
         self.reflection_sites: List[Tuple[str, int, str]] = []
+        self.reflection_unknown_where: List[Tuple[str, int]] = []
         unknown = []
         for m in self.mods.values():
             if ".playField" in m.name or m.name.endswith("parse_replay"):
@@ -849,9 +861,44 @@ class Model:
                     if hit:
                         topname = getattr(top, "name", "<module>")
                         self.reflection_sites.append((m.rel, n.lineno, hit))
-                        if (m.name, topname) not in self.REFLECTION_ALLOWED:
-                            unknown.append(f"{m.rel}:{n.lineno} {hit} in {topname}")
+                        if (m.name, topname) in self.REFLECTION_ALLOWED:
+                            continue
+                        if hit in ("getattr", "setattr") and self._finite_attr_name(m, top, n):
+                            continue     # the attribute name ranges over a literal table: a finite set of ordinary accesses
+                        unknown.append(f"{m.rel}:{n.lineno} {hit} in {topname}")
+                        self.reflection_unknown_where.append((m.name, n.lineno))
         self.reflection_unknown = unknown
+
+    def _finite_attr_name(self, m, top, call: ast.Call) -> bool:
+        """getattr / setattr whose name argument is a string constant, an element of a literal table (`TABLE[k]`), or a loop
+        variable ranging over a literal table / tuple of strings"""
+        if len(call.args) < 2:
+            return False
+        name = call.args[1]
+
+        def literal_strings(e) -> bool:
+            try:
+                v = self.lit(m.name, e)
+            except Exception:
+                return False
+            if isinstance(v, dict):
+                return all(isinstance(x, str) for x in v.values()) or all(isinstance(x, str) for x in v.keys())
+            return isinstance(v, (list, tuple, set, frozenset)) and all(isinstance(x, str) for x in v)
+        if isinstance(name, ast.Constant) and isinstance(name.value, str):
+            return True
+        if isinstance(name, ast.Subscript) and literal_strings(name.value):
+            return True
+        if isinstance(name, ast.Name):
+            for n in ast.walk(top):
+                if isinstance(n, (ast.For, ast.comprehension)):
+                    tgt_names = {x.id for x in ast.walk(n.target) if isinstance(x, ast.Name)}
+                    if name.id in tgt_names:
+                        it = n.iter
+                        if isinstance(it, ast.Call) and isinstance(it.func, ast.Attribute) and it.func.attr in ("items", "keys", "values"):
+                            it = it.func.value
+                        if literal_strings(it):
+                            return True
+        return False
 
     # ------------------------------------------------------------- utilities
     def loc(self, mod: str, node: ast.AST) -> Tuple[str, int]:
